@@ -125,12 +125,18 @@ def draw_alphabet(rng, enc, kind, n):
         cased = lo if kind == "plain" else lo + up
         if all(c.isascii() for c in alpha):
             alpha[-1] = rng.choice([c for c in cased if not c.isascii() and c not in alpha])
-        if all(not c.isascii() for c in alpha) and rng.random() < 0.7:
-            c = rng.choice([c for c in cased if c.isascii()])
+        # 0, 1 or 2 ASCII symbols beside at least one that is not (a guess is pure ASCII only if all its characters are)
+        want = rng.choice([0, 1, 2, 2])
+        pool = [c for c in cased if c.isascii() and c not in alpha]
+        rng.shuffle(pool)
+        while pool and sum(1 for c in alpha if c.isascii()) < want:
+            high = [k for k, c in enumerate(alpha) if not c.isascii()]
             if len(alpha) < 4:
-                alpha.append(c)
+                alpha.append(pool.pop())
+            elif len(high) > 1:
+                alpha[high[-1]] = pool.pop()
             else:
-                alpha[-1] = c
+                break
     rng.shuffle(alpha)
     return alpha
 
